@@ -51,6 +51,7 @@ CrossVerdict(e) ==
      ELSE <<"ACCEPT", "", "", tags>>
 
 NLinks(A) == SumN(LAMBDA a : SumN(LAMBDA b : A[a][b], 1, Len(A)), 1, Len(A)) \div 2
+CrossCount(A, n1) == SumN(LAMBDA a : SumN(LAMBDA b : A[a][b], n1 + 1, Len(A)), 1, n1)
 SeededVerdict(e) ==
   LET tags == "seeded," \o e.gen
       R(c) == <<"REJECT", c, e.gen, tags>>
@@ -62,11 +63,21 @@ SeededVerdict(e) ==
      ELSE IF e.gen = "BarabasiAlbert_igraph" /\ NLinks(e.A1) > e.m * n THEN R("LinkCount")
      ELSE IF e.gen = "Configuration" /\ ~(\A k \in 1..n : DegreeSeq(e.A1)[k] <= e.deg[k]) THEN R("DegreesBounded")
      ELSE IF e.gen = "randomly_rewire" /\ DegreeSeq(e.A1) # DegreeSeq(e.A0) THEN R("DegreePreserved")
-     ELSE IF e.gen \in {"RandomlySetCrossLinks", "RandomlySetCrossLinks_sparse"} /\
+     ELSE IF e.gen \in {"RandomlySetCrossLinks", "RandomlySetCrossLinks_sparse"} /\ e.mode = "count" /\
              ~(/\ Block(e.A1, 1, e.n1, 1, e.n1) = Block(e.A0, 1, e.n1, 1, e.n1)
                /\ Block(e.A1, e.n1 + 1, n, e.n1 + 1, n) = Block(e.A0, e.n1 + 1, n, e.n1 + 1, n)
-               /\ SumN(LAMBDA a : SumN(LAMBDA b : e.A1[a][b], e.n1 + 1, n), 1, e.n1) = e.m)
+               /\ CrossCount(e.A1, e.n1) = e.m)
           THEN R("UntouchedBlocks")
+     \* prescribed by a density dn/dd: floor(dn * N1 * N2 / dd) cross links (none for density 0); not
+     \* prescribed at all: as many as the given network has (null model)
+     ELSE IF e.gen \in {"RandomlySetCrossLinks", "RandomlySetCrossLinks_sparse"} /\ e.mode \in {"density", "null"} /\
+             ~(/\ Block(e.A1, 1, e.n1, 1, e.n1) = Block(e.A0, 1, e.n1, 1, e.n1)
+               /\ Block(e.A1, e.n1 + 1, n, e.n1 + 1, n) = Block(e.A0, e.n1 + 1, n, e.n1 + 1, n))
+          THEN R("UntouchedBlocks")
+     ELSE IF e.gen \in {"RandomlySetCrossLinks", "RandomlySetCrossLinks_sparse"} /\ e.mode = "density" /\
+             CrossCount(e.A1, e.n1) # (e.dn * e.n1 * (n - e.n1)) \div e.dd THEN R("LinkCount")
+     ELSE IF e.gen \in {"RandomlySetCrossLinks", "RandomlySetCrossLinks_sparse"} /\ e.mode = "null" /\
+             CrossCount(e.A1, e.n1) # CrossCount(e.A0, e.n1) THEN R("LinkCount")
      ELSE <<"ACCEPT", "", "", tags>>
 Verdict(e) == IF e.blk = "geo" THEN GeoVerdict(e) ELSE IF e.blk = "cross" THEN CrossVerdict(e) ELSE SeededVerdict(e)
 Verdicts == TLCEval([k \in 1..Len(Trace) |-> Verdict(Trace[k])])
